@@ -11,6 +11,15 @@
 #include <nop/serializer.h>
 #include <nop/structure.h>
 
+#include <fcntl.h>
+#include <unistd.h>
+
+#include <mutex>
+#include <thread>
+
+#include <nop/utility/fd_reader.h>
+#include <nop/utility/fd_writer.h>
+
 #include "ops.h"
 
 namespace rpcx {
@@ -422,11 +431,164 @@ void RunCalls(const std::string& iface, const Json& calls, JsonOut& o) {
   o.end_arr();
 }
 
+// ---- two-thread transport over real pipes ---------------------------------------------
+// Caller and dispatcher run in two threads connected by two pipe()s through the library's FdWriter / FdReader
+// (wrapped only to record the bytes that pass). The dispatcher thread serves requests until one fails and then
+// closes its ends; the caller then sees the end of the connection. Requests cannot be tampered with in flight here.
+struct TeeWriter {
+  nop::FdWriter* w;
+  std::vector<uint8_t>* log;
+  std::mutex* mu;
+  St Prepare(size_t n) { return w->Prepare(n); }
+  St Write(uint8_t b) { auto st = w->Write(b); if (st) { std::lock_guard<std::mutex> g(*mu); log->push_back(b); } return st; }
+  // byte by byte (as FdWriter's own block overload does), so that the record of what travelled stays exact when the
+  // peer closes the pipe in the middle of a block
+  template <typename T> St Write(const T* b, const T* e) {
+    const uint8_t* p = reinterpret_cast<const uint8_t*>(b);
+    const size_t n = static_cast<size_t>(e - b) * sizeof(T);
+    for (size_t i = 0; i < n; i++) { auto st = Write(p[i]); if (!st) return st; }
+    return {};
+  }
+  St Skip(size_t n, uint8_t pad = 0) { for (size_t i = 0; i < n; i++) { auto st = Write(pad); if (!st) return st; } return {}; }
+};
+struct TeeReader {
+  nop::FdReader* r;
+  std::vector<uint8_t>* log;
+  std::mutex* mu;
+  St Ensure(size_t n) { return r->Ensure(n); }
+  St Read(uint8_t* b) { auto st = r->Read(b); if (st) { std::lock_guard<std::mutex> g(*mu); log->push_back(*b); } return st; }
+  template <typename T> St Read(T* b, T* e) {
+    auto st = r->Read(b, e);
+    if (st) { std::lock_guard<std::mutex> g(*mu); const uint8_t* p = reinterpret_cast<const uint8_t*>(b); log->insert(log->end(), p, p + (e - b) * sizeof(T)); }
+    return st;
+  }
+  St Skip(size_t n) { for (size_t i = 0; i < n; i++) { uint8_t b; auto st = Read(&b); if (!st) return st; } return {}; }
+};
+
+struct PipeCtx {
+  std::mutex mu;
+  std::vector<uint8_t> req_written, req_read, rep_written, rep_read;
+  std::vector<HandlerLog> hlog;
+  std::vector<int> dstatus;     // one per dispatcher pass, in order
+};
+
+template <typename Method, typename Ret, typename... Args>
+void PipeCallTyped(nop::Serializer<TeeWriter*>* ser, nop::Deserializer<TeeReader*>* des, const Json& args, JsonOut& o) {
+  std::tuple<std::decay_t<Args>...> t;
+  if (!Abs<decltype(t)>::from(args, t)) { o.kv_bool("badargs", true); return; }
+  auto sender = nop::MakeSimpleMethodSender(ser, des);
+  nop::Status<Ret> st = InvokeTuple<Method>(&sender, t, std::make_index_sequence<sizeof...(Args)>{});
+  RetEmit<Ret>::emit(st, o);
+}
+
+void RunPipeCalls(const Json& calls, JsonOut& o) {
+  int c2s[2], s2c[2];
+  if (::pipe(c2s) != 0 || ::pipe(s2c) != 0) { o.kv_bool("nopipe", true); return; }
+  PipeCtx px;
+  PipeCtx* P = &px;
+  std::thread server([P, &c2s, &s2c]() {
+    nop::FdReader fr(c2s[0]);
+    nop::FdWriter fw(s2c[1]);
+    TeeReader tr{&fr, &P->req_read, &P->mu};
+    TeeWriter tw{&fw, &P->rep_written, &P->mu};
+    nop::Serializer<TeeWriter*> pser{&tw};
+    nop::Deserializer<TeeReader*> pdes{&tr};
+    auto receiver = nop::MakeSimpleMethodReceiver(&pser, &pdes);
+    auto log = [P](const char* m, std::string a, std::string r) { std::lock_guard<std::mutex> g(P->mu); P->hlog.push_back({m, std::move(a), std::move(r)}); };
+    auto calc = nop::BindInterface(
+        Calc::Sum::Bind([log](std::int32_t a, std::int32_t b) { std::int32_t r = static_cast<std::int32_t>(static_cast<std::uint32_t>(a) + static_cast<std::uint32_t>(b)); log("Sum", JArgs(a, b), J(r)); return r; }),
+        Calc::Concat::Bind([log](const std::string& a, const std::string& b) { std::string r = a + b; log("Concat", JArgs(a, b), J(r)); return r; }),
+        Calc::Echo::Bind([log](const std::vector<std::uint8_t>& v) { std::vector<std::uint8_t> r(v.rbegin(), v.rend()); log("Echo", JArgs(v), J(r)); return r; }),
+        Calc::Seek::Bind([log](std::int64_t p) { std::int64_t r = static_cast<std::int64_t>(static_cast<std::uint64_t>(p) ^ 0x5555u); log("Seek", JArgs(p), J(r)); return r; }),
+        Calc::Div::Bind([log](std::int32_t a, std::int32_t b) { nop::Result<DivErr, std::int32_t> r; if (b == 0 || (a == std::numeric_limits<std::int32_t>::min() && b == -1)) r = DivErr::DivideByZero; else r = a / b; log("Div", JArgs(a, b), J(r)); return r; }));
+    while (true) {
+      auto st = calc(&receiver);
+      { std::lock_guard<std::mutex> g(P->mu); P->dstatus.push_back(Code(st)); }
+      if (!st) break;     // the connection is dropped after the first failed request
+    }
+    // fr / fw close their descriptors here
+  });
+  {
+    nop::FdWriter cw(c2s[1]);
+    nop::FdReader cr(s2c[0]);
+    TeeWriter tw{&cw, &P->req_written, &P->mu};
+    TeeReader tr{&cr, &P->rep_read, &P->mu};
+    nop::Serializer<TeeWriter*> ser{&tw};
+    nop::Deserializer<TeeReader*> des{&tr};
+    o.key("calls");
+    o.begin_arr();
+    for (auto& call : calls.a) {
+      const std::string& m = call.at("m").s;
+      size_t req0, rep0, hl0, ds0, reqr0;
+      { std::lock_guard<std::mutex> g(P->mu); req0 = P->req_written.size(); rep0 = P->rep_written.size(); hl0 = P->hlog.size(); ds0 = P->dstatus.size(); reqr0 = P->req_read.size(); }
+      o.begin_obj();
+      o.kv_str("m", m);
+      o.kv_bool("pipe", true);
+      if (call.has("args")) { o.key("args"); WriteJson(call.at("args"), o); }
+      const Json& a = call.at("args");
+      if (m == "Raw") {
+        std::vector<uint8_t> b = BytesOf(call.at("raw"));
+        (void)tw.Write(b.data(), b.data() + b.size());
+        o.kv_num("st_invoke", -1);
+      }
+      else if (m == "Sum") PipeCallTyped<Calc::Sum, std::int32_t, std::int32_t, std::int32_t>(&ser, &des, a, o);
+      else if (m == "Concat") PipeCallTyped<Calc::Concat, std::string, std::string, std::string>(&ser, &des, a, o);
+      else if (m == "Echo") PipeCallTyped<Calc::Echo, std::vector<std::uint8_t>, std::vector<std::uint8_t>>(&ser, &des, a, o);
+      else if (m == "EchoArr") PipeCallTyped<Calc::Echo, std::vector<std::uint8_t>, std::array<std::uint8_t, 3>>(&ser, &des, a, o);
+      else if (m == "Seek") PipeCallTyped<Calc::Seek, std::int64_t, std::int64_t>(&ser, &des, a, o);
+      else if (m == "SeekU32") PipeCallTyped<Calc::Seek, std::int64_t, std::uint32_t>(&ser, &des, a, o);
+      else if (m == "Div") PipeCallTyped<Calc::Div, nop::Result<DivErr, std::int32_t>, std::int32_t, std::int32_t>(&ser, &des, a, o);
+      else if (m == "Unbound") PipeCallTyped<Calc::Unbound, std::int32_t, std::int32_t>(&ser, &des, a, o);
+      else if (m == "Stats") PipeCallTyped<Calc::Stats, Point, Point, nop::Optional<std::int32_t>>(&ser, &des, a, o);   // not bound on this server
+      else o.kv_bool("badmethod", true);
+      // a call that got its reply returns after the dispatcher pass has completed; one that did not (unbound method,
+      // raw bytes) is over when the dispatcher has dropped the connection
+      bool failed_pass = false;
+      for (int spin = 0; spin < 250000; spin++) {      // up to 25 s on a loaded machine; normally microseconds
+        {
+          std::lock_guard<std::mutex> g(P->mu);
+          if (P->dstatus.size() > ds0) { failed_pass = P->dstatus.back() != 0; break; }
+        }
+        ::usleep(100);
+      }
+      std::lock_guard<std::mutex> g(P->mu);
+      o.kv_num("dstatus", P->dstatus.size() > ds0 ? P->dstatus[ds0] : -1);
+      o.key("req"); o.bytes(P->req_written.data() + req0, P->req_written.size() - req0);
+      o.key("seen"); o.bytes(P->req_written.data() + req0, P->req_written.size() - req0);     // nothing sits between the peers
+      o.key("rep"); o.bytes(P->rep_written.data() + rep0, P->rep_written.size() - rep0);
+      // bytes of this request the dispatcher did not consume / of this reply the caller did not consume
+      o.kv_num("req_left", static_cast<long long>(P->req_written.size() - P->req_read.size()));
+      o.kv_num("rep_left", static_cast<long long>(P->rep_written.size() - P->rep_read.size()));
+      (void)reqr0;
+      o.key("hlog");
+      o.begin_arr();
+      for (size_t i = hl0; i < P->hlog.size(); i++) {
+        o.begin_obj();
+        o.kv_str("m", P->hlog[i].m);
+        o.kv_raw("args", P->hlog[i].args_json);
+        if (P->hlog[i].ret_json != "null") o.kv_raw("ret", P->hlog[i].ret_json);
+        o.end_obj();
+      }
+      o.end_arr();
+      o.end_obj();
+      if (failed_pass) break;     // the connection is gone: later calls are not part of this history
+    }
+    o.end_arr();
+    // cw / cr close here: the dispatcher's next read sees the end of the stream and its loop ends
+  }
+  server.join();
+  o.key("dispatcher_passes");
+  o.begin_arr();
+  for (int d : P->dstatus) o.num(d);
+  o.end_arr();
+}
+
 void CmdRpc(const Json& cmd, JsonOut& o) {
   o.kv_str("e", "RPC");
   o.kv_str("iface", cmd.at("iface").s);
   o.kv_word("hash_calc", Calc::GetInterfaceHash(), 8);
   o.kv_word("hash_small", Small::GetInterfaceHash(), 8);
+  if (cmd.at("transport").s == "pipe") { o.kv_str("transport", "pipe"); RunPipeCalls(cmd.at("calls"), o); return; }
   RunCalls(cmd.at("iface").s, cmd.at("calls"), o);
 }
 
